@@ -17,6 +17,7 @@
 From Coq Require Import ZArith List Bool.
 Import ListNotations.
 From Cffi Require Import C01.Spec.     (* only the declaration syntax `ctype` is used *)
+From Cffi Require Import C01.Gen.      (* regenerated fact about cparser.py *)
 Open Scope Z_scope.
 
 Inductive err := TypeError | NotImplementedError | SystemError.
@@ -49,6 +50,14 @@ Definition complete_sflags (sflags : Z) : Z :=
     then Z.lor sflags SF_GCC_X86_BITFIELDS else sflags in
   if negb (has sflags (Z.lor SF_GCC_BIG_ENDIAN SF_GCC_LITTLE_ENDIAN))
   then Z.lor sflags SF_GCC_LITTLE_ENDIAN else sflags.
+
+(* cparser.py _get_struct_union_enum_type: which cdef()'s packed=/pack= option ends up in tp.packed.
+   `defining` is the option of the cdef() call that contains the {...} body, `mention` the one of an
+   earlier cdef() that only mentioned the tag (forward declaration, typedef, pointer field; -1: none).
+   The position of the assignment in the source is the regenerated fact C01.Gen. *)
+Definition struct_packed (defining mention : Z) : Z :=
+  if packed_from_defining_cdef then defining
+  else if mention <? 0 then defining else mention.
 
 (* model.py 414-421: (sflags, pack) passed to complete_struct_or_union *)
 Definition finish_backend_flags (packed : Z) : Z * Z :=
@@ -265,21 +274,23 @@ Definition observe (r : res tinfo) : option (Z * Z * list (Z * Z * Z * Z)) :=
 Inductive wtype :=
 | WPrim (s a : Z) (bf : bool)
 | WArr (item : wtype) (n : Z)
-| WAgg (u : bool) (pack : Z) (fs : wfields)
+| WAgg (u : bool) (pack mention : Z) (fs : wfields)    (* mention: pack option of an earlier cdef() naming the tag, -1 none *)
 with wfields :=
 | WNil
 | WCons (named : bool) (t : wtype) (bits : Z) (rest : wfields).
 
-Fixpoint of_wire (w : wtype) : ctype :=
+(* cffi = true: the declaration as cffi sees it (tp.packed via struct_packed);
+   cffi = false: as the compiler sees it (the packing in force at the definition) *)
+Fixpoint of_wire (cffi : bool) (w : wtype) : ctype :=
   match w with
   | WPrim s a b => TPrim s a b
-  | WArr i n => TArr (of_wire i) n
-  | WAgg u p fs => TAgg u p (of_wfields fs)
+  | WArr i n => TArr (of_wire cffi i) n
+  | WAgg u p mention fs => TAgg u (if cffi then struct_packed p mention else p) (of_wfields cffi fs)
   end
-with of_wfields (fs : wfields) : list (bool * ctype * Z) :=
+with of_wfields (cffi : bool) (fs : wfields) : list (bool * ctype * Z) :=
   match fs with
   | WNil => []
-  | WCons nm t b r => (nm, of_wire t, b) :: of_wfields r
+  | WCons nm t b r => (nm, of_wire cffi t, b) :: of_wfields cffi r
   end.
 
 Inductive wobs := ONil | OCons (a b c d : Z) (rest : wobs).
@@ -327,8 +338,8 @@ Fixpoint wmismatches (f : wtype -> wres) (i : Z) (cs : wcases) : list Z :=
       let tl := wmismatches f (i + 1) rest in
       if wres_eqb (f w) r then tl else i :: tl
   end.
-Definition model_obs (w : wtype) : wres := to_wres (observe (cffi_layout (of_wire w))).
-Definition spec_obs (w : wtype) : wres := to_gres (gobserve (gcc_layout (of_wire w))).
+Definition model_obs (w : wtype) : wres := to_wres (observe (cffi_layout (of_wire true w))).
+Definition spec_obs (w : wtype) : wres := to_gres (gobserve (gcc_layout (of_wire false w))).
 
 (* ---- the other conventions (MSVC, ARM, big endian, packed bit-fields): the backend function
    accepts explicit sflags/pack, so these branches of the model are tied to the C code by the
@@ -342,7 +353,7 @@ Fixpoint members_of (fs : list (bool * ctype * Z)) : res (list member) :=
       bind (members_of fs') (fun ms => Ok ((named, (ft, fi), bits) :: ms)))
   end.
 Definition alt_obs (w : wtype) : wres :=
-  match of_wire w with
+  match of_wire false w with
   | TAgg u code fs =>
       to_wres (observe (bind (members_of fs)
                              (complete_struct_or_union u (code / 65536) (code mod 65536))))
